@@ -264,10 +264,10 @@ static Verdict verdict(double a, const Dir& D, int c, double allow, std::string*
 }
 
 // ------------------------------------------------------------------ lattices and tuple spaces
-static const double LAT[] = {-2.5, -1, -0.5, -1e-8, 0, 1e-8, 0.5, 1, 2, 2.5, 10, 1e8, NAN};
+static const double LAT[] = {-2.5, -2, -1, -0.5, -1e-8, 0, 1e-8, 0.5, 1, 2, 2.5, 10, 1e8, NAN};
 static const int NLAT = sizeof LAT / sizeof *LAT;
 // thorough tier, arity <= 2: LAT plus neighbourhoods of +-1 and 0 and more magnitudes
-static const double EXT[] = {-10, -2.5, -1.5, -1.1, -1, -0.9, -0.5, -1e-3, -1e-8, 0, 1e-8, 1e-3, 0.1, 0.5, 0.9, 1, 1.1,
+static const double EXT[] = {-10, -3, -2.5, -2, -1.5, -1.1, -1, -0.9, -0.5, -1e-3, -1e-8, 0, 1e-8, 1e-3, 0.1, 0.5, 0.9, 1, 1.1,
                              1.5, 2, 2.5, 3, 5, 10, 100, 1e4, 1e8, NAN};
 static const int NEXT = sizeof EXT / sizeof *EXT;
 // thorough tier, arity >= 5: full product over this core (in addition to the pairwise array over LAT)
